@@ -147,7 +147,9 @@ where
             table_r: other.table,
             nodes: extend_lpm(
                 other.table,
-                other.table[other.loc.idx()].prefix_value(),
+                // The two roots may be different nodes: the longest prefix match in `other` is
+                // only known once the traversal pairs up a node (see `extend_lpm`).
+                None,
                 next_indices(
                     self.table,
                     other.table,
@@ -257,7 +259,9 @@ where
         let other = other.view();
         let nodes = extend_lpm(
             other.table,
-            other.table[other.loc.idx()].prefix_value(),
+            // The two roots may be different nodes: the longest prefix match in `other` is only
+            // known once the traversal pairs up a node (see `extend_lpm`).
+            None,
             next_indices(
                 self.table,
                 other.table,
